@@ -13,8 +13,8 @@
      perm_step_WF             ChMove ChSort ChReorder (an accepted call permutes one list; a rejected one is the identity)
      new_task_rel_inv         Task(id, parent=, children=, successors=, predecessors=): allocation, then the setters
    == 4. the theorems ==
-     step_WF                  WF s -> pub_args s o = true -> WF (fst (step s o))         all 24 kinds
-     step_shape               WF s -> pub_args s o = true -> shape s (fst (step s o))    all 24 kinds
+     step_WF                  WF s -> pub_args s o = true -> WF (fst (step s o))         all 26 kinds
+     step_shape               WF s -> pub_args s o = true -> shape s (fst (step s o))    all 26 kinds
      pub_run_b / pub_run      every call of the history is public in the state it is applied to
      run_WF, reach_WF, pub_run_firstn, prefixes_WF, run_shape
    == 5. the meaning of WF over the public view ==
@@ -84,7 +84,8 @@ Qed.
 
 Definition is_link_op (o : op) : bool :=
   match o with
-  | SetLinks _ _ _ | LnAppend _ _ _ | LnRemove _ _ _ | LnRemoveAll _ _ _ | OpShift _ _ _ | LstShift _ _ _ => true
+  | SetLinks _ _ _ | LnAppend _ _ _ | LnRemove _ _ _ | LnRemoveAll _ _ _ | OpShift _ _ _ | LstShift _ _ _
+  | LstSetLinks _ _ _ => true
   | _ => false
   end.
 Definition is_parent_op (o : op) : bool :=
@@ -95,7 +96,8 @@ Definition is_parent_op (o : op) : bool :=
   end.
 Definition is_children_op (o : op) : bool :=
   match o with
-  | SetChildren _ _ | ChRemove _ _ | ChRemoveAll _ _ | OpFloordiv _ _ | WbsRemove _ _ | WbsRemoveAll _ _ => true
+  | SetChildren _ _ | ChRemove _ _ | ChRemoveAll _ _ | OpFloordiv _ _ | LstSetChildren _ _ | WbsRemove _ _
+  | WbsRemoveAll _ _ => true
   | _ => false
   end.
 Definition is_perm_op (o : op) : bool :=
@@ -109,6 +111,7 @@ Proof.
   - apply pubobj_pub; assumption.
   - apply pubobj_pub; assumption.
   - split; [apply pubobj_pub|apply publist_pubs]; assumption.
+  - split; [apply forallb_pubobj|apply publist_pubs]; assumption.
   - split; [apply forallb_pubobj|apply publist_pubs]; assumption.
 Qed.
 
@@ -182,6 +185,20 @@ Proof.
   unfold lst_shift, all_or_nothing. destruct (snd (lst_shift_seq d s ts vs)) as [[]| |c]; cbn [fst];
     [|apply same_shape_refl..].
   unfold lst_shift_seq. apply seq_calls_same_shape. intros s' c. apply op_shift_same_shape.
+Qed.
+
+Lemma lst_set_links_same_shape d s ts vs : same_shape s (fst (lst_set_links d s ts vs)).
+Proof.
+  unfold lst_set_links, all_or_nothing. destruct (snd (lst_set_links_seq d s ts vs)) as [[]| |c]; cbn [fst];
+    [|apply same_shape_refl..].
+  unfold lst_set_links_seq. apply seq_calls_same_shape. intros s' c. apply set_links_same_shape.
+Qed.
+
+Lemma lst_set_children_same_shape s ts vs : same_shape s (fst (lst_set_children s ts vs)).
+Proof.
+  unfold lst_set_children, all_or_nothing. destruct (snd (lst_set_children_seq s ts vs)) as [[]| |c]; cbn [fst];
+    [|apply same_shape_refl..].
+  unfold lst_set_children_seq. apply seq_calls_same_shape. intros s' c. apply set_children_same_shape.
 Qed.
 
 Lemma ch_remove_same_shape s o c : same_shape s (fst (ch_remove s o c)).
@@ -456,6 +473,8 @@ Proof.
   - apply same_shape_shape. apply op_shift_same_shape.
   - apply same_shape_shape. apply lst_shift_same_shape.
   - apply same_shape_shape. apply lst_set_parent_inv; [exact W|apply forallb_pubobj; assumption|apply okopt_range; assumption].
+  - apply same_shape_shape. apply lst_set_children_same_shape.
+  - apply same_shape_shape. apply lst_set_links_same_shape.
   - apply same_shape_shape. apply wbs_remove_same_shape.
   - apply same_shape_shape. apply wbs_remove_all_same_shape.
   - apply same_shape_shape. apply gframe_shape. apply set_est_gframe.
@@ -676,7 +695,7 @@ Theorem C15_atomic_wf_all :
   forall s o, WF s -> AtomicLoops.atomic_op_wf o = true -> snd (step s o) <> OK -> fst (step s o) = s.
 Proof. exact (AtomicLoops.C15_atomic_wf ch_remove_WF_all). Qed.
 
-(* every one of the 24 operation kinds, hypothesis WF s only *)
+(* every one of the 26 operation kinds, hypothesis WF s only *)
 Theorem C15_atomic_every_op : forall s o, WF s -> snd (step s o) <> OK -> fst (step s o) = s.
 Proof. intros s o W. apply C15_atomic_wf_all; [exact W|apply AtomicLoops.atomic_op_wf_all]. Qed.
 
